@@ -131,6 +131,14 @@ theorem src_valid_imp_corrected_valid (x : ℚ) (l : List (ℚ × Params)) (hw :
 theorem src_valid_imp_corrected_valid_srcGrid (x : ℚ) (p : Params) :
     (correctedPxSrcGrid (some x) (some p)).isSome = true := rfl
 
+/-- **The converse fails for the two-parameter model without in-painting** (finding D17): a kernel window that holds a
+    single jointly valid pixel has no least-squares solution - `N·ΣS² − (ΣS)² = 0` - whatever its values, so that pixel
+    carries no parameters and is lost.  (With the gain model the same window gives the gain `y / x`: `gain_exists_of_pos`.) -/
+theorem gain_offset_single_point_no_fit (x y : ℚ) (fr : Bool) (oF : Option ℚ) :
+    fitGainOffsetS ⟨1, x, y, x * x, y * y, x * y⟩ fr none oF = none := by
+  unfold fitGainOffsetS ols olsGain divO
+  simp
+
 /-! non-vacuity -/
 example : (correctedPx (some 3) true [((1:ℚ)/4, ⟨2, 1, none⟩), (3/4, ⟨4, 0, none⟩)]) = some (43/4) := by
   decide +kernel
